@@ -332,8 +332,9 @@ def thresholds_db(wd, rng, page_size=512, tag="thr"):
     lens = set()
     for idx in (False, True):
         for t in sqlfmt.thresholds(page_size, idx):
-            for d in range(-9, 3):
-                if 0 <= t + d <= 4 * page_size + 40:
+            # on 64 KiB pages one row is up to a quarter of a megabyte: a narrow window, two overflow multiples
+            for d in (range(-9, 3) if page_size <= 4096 else range(-1, 2)):
+                if 0 <= t + d <= (4 if page_size <= 4096 else 2) * page_size + 40:
                     lens.add(t + d)
     c.execute("BEGIN")
     for n, l in enumerate(sorted(lens)):
